@@ -339,6 +339,10 @@ impl Walrus {
                     mmap: mmap.clone(),
                 };
                 let mut in_block_off: u64 = 0;
+                // A block whose first entry is larger than DEFAULT_BLOCK_SIZE was allocated as
+                // a whole number of units (the allocator rounds the size up); scan that whole
+                // extent as one block instead of re-interpreting its payload as further blocks.
+                let mut block_limit: u64 = DEFAULT_BLOCK_SIZE;
                 loop {
                     // A header window that would run past the end of the file cannot hold
                     // an entry; reading it is out of bounds for the mapping.
@@ -347,10 +351,14 @@ impl Walrus {
                     }
                     match block_stub.read(in_block_off) {
                         Ok((_entry, consumed)) => {
+                            if in_block_off == 0 && consumed as u64 > block_limit {
+                                block_limit = (consumed as u64).div_ceil(DEFAULT_BLOCK_SIZE)
+                                    * DEFAULT_BLOCK_SIZE;
+                            }
                             used += consumed as u64;
                             in_block_off += consumed as u64;
                             entries_in_block = entries_in_block.saturating_add(1);
-                            if in_block_off >= DEFAULT_BLOCK_SIZE {
+                            if in_block_off >= block_limit {
                                 break;
                             }
                         }
@@ -364,7 +372,7 @@ impl Walrus {
                 let block = Block {
                     id: next_block_id as u64,
                     offset: block_offset,
-                    limit: DEFAULT_BLOCK_SIZE,
+                    limit: block_limit,
                     used,
                     file_path: file_path.clone(),
                     mmap: mmap.clone(),
@@ -387,7 +395,7 @@ impl Walrus {
                     );
                 }
                 next_block_id += 1;
-                block_offset += DEFAULT_BLOCK_SIZE;
+                block_offset += block_limit;
             }
         }
 
